@@ -133,6 +133,17 @@ func (e *enc) call(x *ssa.Call) {
 				}
 			}
 		}
+		// a repository closure handed to an external function may be called by it any number of times: whatever the
+		// closure can write (captured variables, the maps and objects they hold, package state) is unknown afterwards
+		for _, a := range c.Args {
+			v := a
+			if ct, ok := v.(*ssa.ChangeType); ok {
+				v = ct.X
+			}
+			if mc, ok := v.(*ssa.MakeClosure); ok {
+				e.havocClosureEffects(mc)
+			}
+		}
 		e.summarise(x, callee, args)
 		return
 	}
@@ -965,4 +976,130 @@ func (e *enc) goTypeNameOf(v Term) Term {
 		}
 	})
 	return fmt.Sprintf("(%s (%s %s))", f, tag, v)
+}
+
+// havocClosureEffects: the state a closure may write when an external function calls it. A closure that writes nothing
+// but its own locals (a comparison function, a key function) changes nothing.
+func (e *enc) havocClosureEffects(mc *ssa.MakeClosure) {
+	fn, ok := mc.Fn.(*ssa.Function)
+	if !ok {
+		return
+	}
+	fr := e.fr
+	writesCaptured := map[int]bool{}
+	callsOut := false
+	var scan func(f *ssa.Function, depth int)
+	scan = func(f *ssa.Function, depth int) {
+		for _, b := range f.Blocks {
+			for _, in := range b.Instrs {
+				switch x := in.(type) {
+				case *ssa.Store:
+					root := x.Addr
+					for d := 0; d < 8; d++ {
+						switch y := root.(type) {
+						case *ssa.FieldAddr:
+							root = y.X
+							continue
+						case *ssa.IndexAddr:
+							root = y.X
+							continue
+						}
+						break
+					}
+					if fv, ok := root.(*ssa.FreeVar); ok && f == fn {
+						for i, v := range fn.FreeVars {
+							if v == fv {
+								writesCaptured[i] = true
+							}
+						}
+					} else if _, local := root.(*ssa.Alloc); !local {
+						callsOut = true // a store through some other pointer (loaded from a captured variable, a map entry, ...)
+					}
+				case *ssa.MapUpdate:
+					callsOut = true
+				case *ssa.Call:
+					if _, isBuiltin := x.Call.Value.(*ssa.Builtin); !isBuiltin {
+						callsOut = true
+					}
+				case *ssa.MakeClosure:
+					callsOut = true
+				}
+			}
+		}
+	}
+	scan(fn, 0)
+	if !callsOut && len(writesCaptured) == 0 {
+		return
+	}
+	// the closure's `preserves` clauses: proved here, before the first call, and assumed after the last one
+	var pres []Clause
+	if fn.Pkg != nil {
+		if ct := e.ss.Contracts[fn.Pkg.Pkg.Path()+"."+funcKey(fn)]; ct != nil {
+			pres = ct.Preserves
+		}
+	}
+	siteEnv := func() *specEnv {
+		env := &specEnv{e: e, fr: fr, vars: map[string]tval{}, ptrLoc: map[string]*Loc{}, varLoc: map[string]*Loc{}, mem: e.mem}
+		if fn.Pkg != nil {
+			env.pkg = fn.Pkg.Pkg
+		}
+		for i, fv := range fn.FreeVars {
+			if i < len(mc.Bindings) {
+				env.vars[fv.Name()] = e.mkT(e.value(mc.Bindings[i]), fv.Type())
+				if l, ok := fr.loc[mc.Bindings[i]]; ok {
+					env.ptrLoc[fv.Name()] = l
+				}
+			}
+		}
+		return env
+	}
+	for i, c := range pres {
+		g, err := e.specBool(siteEnv(), c.E)
+		if err != nil {
+			e.contractError(fr, fmt.Sprintf("preserves %d of %s at its use: %v", i+1, fnFull(fn), err))
+			continue
+		}
+		e.oblige("pre@"+fnFull(fn), g, mc.Pos(), "preserved by every call of the closure, so it must hold before the first: "+c.Text)
+	}
+	defer func() {
+		for _, c := range pres {
+			if g, err := e.specBool(siteEnv(), c.E); err == nil {
+				e.assumeAt(g)
+			}
+		}
+		if len(pres) > 0 {
+			e.assumps["an external function given a closure calls nothing else of the repository: a condition every call of the closure preserves, and that holds before, holds afterwards"] = true
+		}
+	}()
+	keys := map[string]bool{}
+	allHeap := false
+	for i, b := range mc.Bindings {
+		if callsOut || writesCaptured[i] {
+			e.addWriteBase(fr, b, keys, &allHeap)
+			if l, ok := fr.loc[b]; ok {
+				keys[l.base] = true
+			}
+		}
+	}
+	fa := e.w.frameOf(fn)
+	for g := range fa.writes {
+		keys[e.ensureGlobal(g)] = true
+	}
+	if fa.fs {
+		keys[e.fsMem()] = true
+	}
+	if fa.heap || callsOut {
+		allHeap = true
+	}
+	for _, k := range sortedKeys(e.mem) {
+		switch {
+		case keys[k]:
+			e.havocKey(k)
+		case allHeap && strings.HasPrefix(k, "H:"):
+			e.havocKey(k)
+		case callsOut && (strings.HasPrefix(k, "M:") || strings.HasPrefix(k, "V:")):
+			e.havocKey(k) // maps and element-assigned slices reachable from the captured variables
+		}
+	}
+	e.assumps["an external function given a repository closure may call it: everything the closure can write is unknown after the call"] = true
 }
